@@ -14,7 +14,7 @@ from .c01 import shape_sig
 
 PROP = 'C05'
 LEVEL = 'exploration'
-N = {'quick': 40000, 'thorough': 2000000}
+N = {'quick': 30000, 'thorough': 2000000}
 RULE = ('seeded worlds (2-8 segments, 1-4 channels, some with identical shapes so the offset index is '
         'de-duplicated, _array_equal chunk knob in {1,2,3,100}); per world a seeded schedule of <=60 actions over '
         '<=8 live generators (TdmsFile.data_chunks, channel.data_chunks, iter(channel)) and direct index / slice '
@@ -35,6 +35,7 @@ def opts(tier):
     o.max_chunks = 4
     o.equal_shapes_p = 0.3
     o.typeless_p = 0.05
+    o.long_run_p = 0.006
     o.short_last_p = 0.08
 
     def scaling(rng, spec, ctype):
